@@ -219,6 +219,19 @@ func genRun(args []string) {
 	}
 	st.Counts["corpus"] = len(cases)
 	cases = append(cases, gen(r, *tier, st)...)
+	if mc := os.Getenv("VERIF_MAX_CASES"); mc != "" {
+		// an escalation run: a capped, evenly thinned sample of the larger generation
+		var n int
+		fmt.Sscanf(mc, "%d", &n)
+		if n > 0 && len(cases) > n {
+			step := float64(len(cases)) / float64(n)
+			thin := make([]Case, 0, n)
+			for i := 0; i < n; i++ {
+				thin = append(thin, cases[int(float64(i)*step)])
+			}
+			cases = thin
+		}
+	}
 	finish(cases, *out, st, start)
 }
 
